@@ -306,4 +306,203 @@ theorem C03_atom_record_serial (lvl : Strictness) (ln : Nat) (a : Atom) (c : Con
   rw [C03_cell_width _ _ (by decide : 0 < 6), C03_cell_width _ _ (by decide : 0 < 5)] at this
   exact this
 
+/-! signed whole numbers (residue numbers) -/
+
+theorem parseIsize_digits (l : List Char) (hne : l ≠ []) (hd : l.all isDigit = true) :
+    parseIsize l = if digitsVal l < 2 ^ 63 then some (digitsVal l : Int) else none := by
+  cases l with
+  | nil => exact absurd rfl hne
+  | cons a r =>
+    have ha : isDigit a = true := by simp only [List.all_cons, Bool.and_eq_true] at hd; exact hd.1
+    obtain ⟨hm, hp, _, _⟩ := digit_facts a ha
+    unfold parseIsize
+    split
+    · next neg body hmatch =>
+      split at hmatch
+      · next r' heq => cases heq; exact absurd rfl hm
+      · next r' heq => cases heq; exact absurd rfl hp
+      · next r' =>
+        cases hmatch
+        simp [hd]
+
+theorem parseIsize_minus (l : List Char) (hne : l ≠ []) (hd : l.all isDigit = true) :
+    parseIsize ('-' :: l) = if digitsVal l ≤ 2 ^ 63 then some (-(digitsVal l : Int)) else none := by
+  unfold parseIsize
+  split
+  · next neg body hmatch =>
+    split at hmatch
+    · next r' heq =>
+      cases heq
+      cases hmatch
+      have : l.isEmpty = false := by cases l <;> simp_all
+      simp [hd, this]
+    · next r' heq => cases heq
+    · next r' hne1 hne2 => exact absurd rfl (hne1 _)
+
+/-- **a signed whole number survives its field**: `to_string` of an integer that fits the cell, trimmed and parsed
+by the reader, is the same integer (residue numbers, negative ones included) -/
+theorem C03_int_field_round_trip (w : Nat) (n : Int) (hw : 0 < w) (hfit : (intText n).length ≤ w)
+    (hn : n.natAbs < 2 ^ 63) : parseIsize (trim (cell w (intText n))) = some n := by
+  obtain ⟨hne, hall, hval⟩ := natDigits_spec n.natAbs
+  unfold intText at hfit ⊢
+  by_cases hneg : n < 0
+  · simp only [hneg, if_true] at hfit ⊢
+    have hnd : ('-' :: natDigits n.natAbs).all isDigit = false := by simp [isDigit]
+    rw [C03_cell_text_round_trip w _ hw hfit hnd (by intro c hc; cases hc; decide)
+      (by
+        intro c hc
+        have hm := List.mem_of_mem_getLast? hc
+        simp only [List.mem_cons] at hm
+        rcases hm with rfl | hm
+        · decide
+        · exact isDigit_not_ws c (List.all_eq_true.mp hall c hm))]
+    rw [parseIsize_minus _ hne hall, hval, if_pos (by omega)]
+    congr 1; omega
+  · simp only [hneg, if_false] at hfit ⊢
+    have h1 := C03_cell_number_round_trip w (natDigits n.natAbs) hw hne hfit hall
+    -- the same cell, read as a signed number
+    have hcell : parseIsize (trim (cell w (natDigits n.natAbs))) = parseIsize (natDigits n.natAbs) := by
+      -- both sides are digit strings with the same value
+      unfold cell
+      have h0 : ¬ w = 0 := by omega
+      have hm : (natDigits n.natAbs).length - min w (natDigits n.natAbs).length = 0 := by omega
+      rw [if_neg h0]
+      simp only [hm, List.drop_zero, hall, if_true]
+      have hsub : ((natDigits n.natAbs).dropWhile (· == '0')).all isDigit = true := by
+        rw [List.all_eq_true] at hall ⊢
+        intro c hc; exact hall c ((List.dropWhile_sublist _).subset hc)
+      by_cases he : (natDigits n.natAbs).dropWhile (· == '0') = []
+      · have hz : digitsVal (natDigits n.natAbs) = 0 := by rw [← foldl_digits_zero, he]; rfl
+        have : (!(natDigits n.natAbs).isEmpty && (List.dropWhile (fun x => x == '0') (natDigits n.natAbs)).isEmpty) = true := by
+          simp [hne, he]
+        rw [if_pos this]
+        have ht : trim ('0' :: List.replicate (w - 1) ' ') = ['0'] := by
+          have := C03_trim_padded ['0'] (w - 1) (by intro c hc; cases hc; decide) (by intro c hc; cases hc; decide)
+          simpa using this
+        rw [ht, parseIsize_digits _ hne hall, hz]; rfl
+      · have : (!(natDigits n.natAbs).isEmpty && (List.dropWhile (fun x => x == '0') (natDigits n.natAbs)).isEmpty) = false := by
+          simp [he]
+        rw [if_neg (by simp [this])]
+        have hall' := List.all_eq_true.mp hsub
+        rw [C03_trim_padded _ _
+          (by intro c hc; exact isDigit_not_ws c (hall' c (List.mem_of_mem_head? hc)))
+          (by intro c hc; exact isDigit_not_ws c (hall' c (List.mem_of_mem_getLast? hc))),
+          parseIsize_digits _ he hsub, parseIsize_digits _ hne hall, foldl_digits_zero]
+    rw [hcell, parseIsize_digits _ hne hall, hval, if_pos hn]
+    congr 1; omega
+
+/-- **the residue number column**: a residue number that fits its four columns (−999 … 9999) is lexed back
+unchanged -/
+theorem C03_atom_record_resseq (lvl : Strictness) (ln : Nat) (a : Atom) (c : Conformer) (r : Residue) (ch : Chain)
+    (hids : AsciiIds a c r ch) (hfit : (intText r.serial).length ≤ 4) (hn : r.serial.natAbs < 2 ^ 63) :
+    fIsize ln (atomLine lvl a c r ch) 22 26 = (r.serial, []) := by
+  obtain ⟨h1, h2, h3, h4, _⟩ := hids
+  have hpl : ∀ fields, ∃ pad, printLine lvl fields = getLine fields ++ pad := by
+    intro f
+    unfold printLine
+    simp only
+    split
+    · exact ⟨_, rfl⟩
+    · exact ⟨[], by simp⟩
+  obtain ⟨pad, hpad⟩ := hpl [(6, if a.hetero then S "HETATM" else S "ATOM  "), (0, atomLinePrefix a c r ch), (0, S "   "),
+    (8, fmtFixed a.x 8 3), (8, fmtFixed a.y 8 3), (8, fmtFixed a.z 8 3), (6, fmtFixed a.occ 6 2), (6, fmtFixed a.b 6 2),
+    (0, S "          "), (2, elementSymbol a.element), (0, pdbCharge a.charge)]
+  obtain ⟨tail, hline⟩ : ∃ tail, atomLine lvl a c r ch =
+      (cell 6 (if a.hetero then S "HETATM" else S "ATOM  ") ++ cell 5 (natDigits a.serial) ++ S " " ++ cell 4 (S a.name) ++
+        cell 1 (c.alt.getD " ").toList ++ cell 4 (S c.name) ++ cell 1 (S ch.id)) ++ cell 4 (intText r.serial) ++ tail := by
+    unfold atomLine
+    rw [hpad]
+    unfold getLine atomLinePrefix getLine
+    simp only [List.flatMap_cons, List.flatMap_nil, C03_cell_copy, List.append_assoc, List.append_nil]
+    exact ⟨_, rfl⟩
+  rw [hline]
+  have hpa : Ascii (cell 6 (if a.hetero then S "HETATM" else S "ATOM  ") ++ cell 5 (natDigits a.serial) ++ S " " ++
+      cell 4 (S a.name) ++ cell 1 (c.alt.getD " ").toList ++ cell 4 (S c.name) ++ cell 1 (S ch.id)) := by
+    refine ascii_append.mpr ⟨ascii_append.mpr ⟨ascii_append.mpr ⟨ascii_append.mpr ⟨ascii_append.mpr ⟨ascii_append.mpr
+      ⟨ascii_cell _ _ ?_, ascii_cell _ _ (ascii_natDigits _)⟩, ?_⟩, ascii_cell _ _ h1⟩, ascii_cell _ _ h2⟩,
+      ascii_cell _ _ h3⟩, ascii_cell _ _ h4⟩
+    · split <;> (intro x hx; revert x; decide)
+    · intro x hx; revert x; decide
+  have hlen : (cell 6 (if a.hetero then S "HETATM" else S "ATOM  ") ++ cell 5 (natDigits a.serial) ++ S " " ++
+      cell 4 (S a.name) ++ cell 1 (c.alt.getD " ").toList ++ cell 4 (S c.name) ++ cell 1 (S ch.id)).length = 22 := by
+    simp only [List.length_append, C03_cell_width _ _ (by decide : 0 < 6), C03_cell_width _ _ (by decide : 0 < 5),
+      C03_cell_width _ _ (by decide : 0 < 4), C03_cell_width _ _ (by decide : 0 < 1)]
+    rfl
+  have := fieldW_cell parseIsize 0 ln _ (cell 4 (intText r.serial)) tail hpa (ascii_cell _ _ (ascii_intText _)) r.serial
+    (C03_int_field_round_trip 4 r.serial (by decide) hfit hn)
+  rw [hlen, C03_cell_width _ _ (by decide : 0 < 4)] at this
+  exact this
+
+/-- a text the writer's cell keeps and the reader's trim returns: fits, is not a zero-led number, has no blank
+at either end -/
+def CellSafe (w : Nat) (t : List Char) : Prop :=
+  t.length ≤ w ∧ t.all isDigit = false ∧ (∀ c, t.head? = some c → isRustWs c = false) ∧
+  (∀ c, t.getLast? = some c → isRustWs c = false)
+
+/-- **the atom name and residue name columns**: names that fit (4 and 3 characters) are lexed back unchanged -/
+theorem C03_atom_record_names (lvl : Strictness) (ln : Nat) (a : Atom) (c : Conformer) (r : Residue) (ch : Chain)
+    (hids : AsciiIds a c r ch) (hname : CellSafe 4 (S a.name)) (hres : CellSafe 3 (S c.name)) :
+    fStr ln (atomLine lvl a c r ch) 12 16 = (S a.name, []) ∧ fStr ln (atomLine lvl a c r ch) 17 20 = (S c.name, []) := by
+  obtain ⟨h1, h2, h3, _, _⟩ := hids
+  have hpl : ∀ fields, ∃ pad, printLine lvl fields = getLine fields ++ pad := by
+    intro f
+    unfold printLine
+    simp only
+    split
+    · exact ⟨_, rfl⟩
+    · exact ⟨[], by simp⟩
+  obtain ⟨pad, hpad⟩ := hpl [(6, if a.hetero then S "HETATM" else S "ATOM  "), (0, atomLinePrefix a c r ch), (0, S "   "),
+    (8, fmtFixed a.x 8 3), (8, fmtFixed a.y 8 3), (8, fmtFixed a.z 8 3), (6, fmtFixed a.occ 6 2), (6, fmtFixed a.b 6 2),
+    (0, S "          "), (2, elementSymbol a.element), (0, pdbCharge a.charge)]
+  have htag : Ascii (cell 6 (if a.hetero then S "HETATM" else S "ATOM  ")) := by
+    apply ascii_cell
+    split <;> (intro x hx; revert x; decide)
+  have hsp : Ascii (S " ") := by intro x hx; revert x; decide
+  constructor
+  · obtain ⟨tail, hline⟩ : ∃ tail, atomLine lvl a c r ch =
+        (cell 6 (if a.hetero then S "HETATM" else S "ATOM  ") ++ cell 5 (natDigits a.serial) ++ S " ") ++
+          cell 4 (S a.name) ++ tail := by
+      unfold atomLine
+      rw [hpad]
+      unfold getLine atomLinePrefix getLine
+      simp only [List.flatMap_cons, List.flatMap_nil, C03_cell_copy, List.append_assoc, List.append_nil]
+      exact ⟨_, rfl⟩
+    rw [hline]
+    have := fieldW_cell (fun s => some s) [] ln
+      (cell 6 (if a.hetero then S "HETATM" else S "ATOM  ") ++ cell 5 (natDigits a.serial) ++ S " ") (cell 4 (S a.name)) tail
+      (ascii_append.mpr ⟨ascii_append.mpr ⟨htag, ascii_cell 5 _ (ascii_natDigits a.serial)⟩, hsp⟩) (ascii_cell _ _ h1) (S a.name)
+      (by rw [C03_cell_text_round_trip 4 _ (by decide) hname.1 hname.2.1 hname.2.2.1 hname.2.2.2])
+    simp only [List.length_append, C03_cell_width _ _ (by decide : 0 < 6), C03_cell_width _ _ (by decide : 0 < 5),
+      C03_cell_width _ _ (by decide : 0 < 4)] at this
+    exact this
+  · -- the residue name cell is four wide; the reader looks at its first three columns
+    obtain ⟨hl, hnd, hh, hla⟩ := hres
+    have hcell : cell 4 (S c.name) = (S c.name ++ List.replicate (3 - (S c.name).length) ' ') ++ [' '] := by
+      rw [C03_cell_text 4 _ (by decide) (by omega) hnd]
+      have : 4 - (S c.name).length = (3 - (S c.name).length) + 1 := by omega
+      rw [this, List.replicate_succ', List.append_assoc]
+    obtain ⟨tail, hline⟩ : ∃ tail, atomLine lvl a c r ch =
+        (cell 6 (if a.hetero then S "HETATM" else S "ATOM  ") ++ cell 5 (natDigits a.serial) ++ S " " ++ cell 4 (S a.name) ++
+          cell 1 (c.alt.getD " ").toList) ++ (S c.name ++ List.replicate (3 - (S c.name).length) ' ') ++ tail := by
+      unfold atomLine
+      rw [hpad]
+      unfold getLine atomLinePrefix getLine
+      simp only [List.flatMap_cons, List.flatMap_nil, C03_cell_copy, hcell, List.append_assoc, List.append_nil]
+      exact ⟨_, rfl⟩
+    rw [hline]
+    have hca : Ascii (S c.name ++ List.replicate (3 - (S c.name).length) ' ') :=
+      ascii_append.mpr ⟨h3, ascii_replicate _ ' ' (by decide)⟩
+    have := fieldW_cell (fun s => some s) [] ln
+      (cell 6 (if a.hetero then S "HETATM" else S "ATOM  ") ++ cell 5 (natDigits a.serial) ++ S " " ++ cell 4 (S a.name) ++
+          cell 1 (c.alt.getD " ").toList) (S c.name ++ List.replicate (3 - (S c.name).length) ' ') tail
+      (ascii_append.mpr ⟨ascii_append.mpr ⟨ascii_append.mpr ⟨ascii_append.mpr ⟨htag, ascii_cell 5 _ (ascii_natDigits a.serial)⟩, hsp⟩,
+        ascii_cell 4 _ h1⟩, ascii_cell 1 _ h2⟩) hca (S c.name)
+      (by rw [C03_trim_padded _ _ hh hla])
+    simp only [List.length_append, C03_cell_width _ _ (by decide : 0 < 6), C03_cell_width _ _ (by decide : 0 < 5),
+      C03_cell_width _ _ (by decide : 0 < 4), C03_cell_width _ _ (by decide : 0 < 1), List.length_replicate] at this
+    have hlen3 : (S c.name).length + (3 - (S c.name).length) = 3 := by omega
+    have h17 : 6 + 5 + (S " ").length + 4 + 1 = 17 := rfl
+    rw [h17, hlen3] at this
+    exact this
+
 end PdbModel
